@@ -490,14 +490,66 @@ class Recorder:
         self.event_of = event_of
         self.all_counts = []
         self.saved = {}
+        # skeleton of the main loop of run_to_completion (phase 5): one entry per popped internal event / merge pass /
+        # resolution / advance of the winners, with the number of internal events pushed and the heads returned
+        self.skel = None
+        self.sk_pending = None
+        self.ahf_depth = 0
 
     def __enter__(self):
         sm = self.sm
-        for name in ("_resolve_action_conflicts", "_abort_flow", "_generate_action_event_from_actionable_element"):
+        for name in ("_resolve_action_conflicts", "_abort_flow", "_generate_action_event_from_actionable_element",
+                     "_advance_head_front", "_process_internal_events_without_default_matchers"):
             self.saved[name] = getattr(sm, name)
         self.saved_choice = sm.random.choice
+        orig_ahf, orig_proc = self.saved["_advance_head_front"], self.saved["_process_internal_events_without_default_matchers"]
         orig_resolve, orig_abort, orig_gen = (self.saved[n] for n in ("_resolve_action_conflicts", "_abort_flow", "_generate_action_event_from_actionable_element"))
         rec = self
+
+        def proc(state, event):
+            if rec.skel is not None and rec.ahf_depth == 0:
+                rec.sk_pending = len(state.internal_events)  # the event was just popped
+            return orig_proc(state, event)
+
+        def ahf(state, heads):
+            if rec.skel is None or rec.ahf_depth > 0 or rec.depth > 0 or rec.cur is not None:
+                rec.ahf_depth += 1
+                try:
+                    return orig_ahf(state, heads)
+                finally:
+                    rec.ahf_depth -= 1
+            heads = list(heads)
+            kind = "ev" if rec.sk_pending is not None else ("adv" if rec.skel and rec.skel[-1][0] == "res" else "merge")
+            q0 = rec.sk_pending if kind == "ev" else len(state.internal_events)
+            rec.sk_pending = None
+            mset = []
+            if kind == "merge":
+                mset = [h.uid for fs in state.flow_states.values() for h in fs.heads.values() if h.status == sm.FlowHeadStatus.MERGING]
+            rec.ahf_depth += 1
+            try:
+                out = orig_ahf(state, heads)
+            finally:
+                rec.ahf_depth -= 1
+            npush = len(state.internal_events) - q0
+            uids = [h.uid for h in out]
+            if kind == "merge":
+                rec.skel.append(["merge", mset, npush, uids, [h.uid for h in heads]])
+            else:
+                rec.skel.append([kind, npush, uids])
+            return out
+
+        def resolve_skel(state, heads):
+            if rec.skel is None:
+                return orig_resolve_rec(state, heads)
+            aset = [h.uid for fs in state.flow_states.values() if sm.is_active_flow(fs) for h in fs.heads.values()
+                    if h.status == sm.FlowHeadStatus.ACTIVE]
+            q0 = len(state.internal_events)
+            entry = ["res", aset, 0, [], [h.uid for h in heads], q0]
+            rec.skel.append(entry)
+            out = orig_resolve_rec(state, heads)
+            entry[2] = len(state.internal_events) - q0
+            entry[3] = [h.uid for h in out]
+            return out
 
         def resolve(state, heads):
             heads = list(heads)
@@ -569,7 +621,10 @@ class Recorder:
                 rec.cur["choice"].append([len(seq), c])
             return seq[c % len(seq)]
 
-        sm._resolve_action_conflicts = resolve
+        orig_resolve_rec = resolve
+        sm._resolve_action_conflicts = resolve_skel
+        sm._advance_head_front = ahf
+        sm._process_internal_events_without_default_matchers = proc
         sm._abort_flow = abort
         sm._generate_action_event_from_actionable_element = gen
         sm.random.choice = choice
@@ -664,12 +719,15 @@ def run_prog(case):
                 if case.get("rounds") and k_ev > 0:
                     step["inst"] = instances()
                     step["before"] = snap(step["inst"])
+                rec.skel, rec.sk_pending = [], None
                 try:
                     with contextlib.redirect_stdout(io.StringIO()):
                         sm.run_to_completion(st, dict(ev))
                     step["out"] = [_clean_event(e) for e in st.outgoing_events]
+                    step["skel"] = rec.skel
                 except Exception as e:  # noqa
                     step["exc"] = type(e).__name__ + ": " + str(e)[:100]
+                rec.skel = None
                 step["flows"] = snap(step["inst"]) if "inst" in step else snap()
                 step["missing_actions"] = sorted({u for fs in st.flow_states.values() for u in fs.action_uids if u not in st.actions})
                 step["ncalls"] = len(rec.calls)
@@ -850,6 +908,7 @@ def _run_impl(case):
     obs = run_prog(case) if case["kind"] == "prog" else run_fn(case)
     obs["_oracle"] = _oracle(case, obs)
     obs["_model"] = [call_expect(c) for c in all_calls(case, obs) if "exc" not in c]
+    obs["_model"] += [round_expect(st["skel"]) for r in obs.get("runs", []) for st in r.get("steps", []) if "skel" in st and "exc" not in st]
     obs["_sig"] = _signature(case, obs)
     obs["_nt"] = _nontrivial(case, obs)
     obs["_tags"] = _tags(case, obs)
@@ -902,6 +961,29 @@ def call_expect(call):
         if any(u not in uid for u, _ in call["tbl_after"]):
             exp["tbl"].append([-1, -1])  # an action appeared during the call: never expected
     return [req, exp]
+
+
+def round_expect(skel):
+    """(driver request, expected answer) for the loop skeleton of one run_to_completion call: the Lean model of the main loop
+    (`ConflictRound.run` on the script world) is fed the recorded outputs of the real functions — events pushed and heads
+    returned per popped internal event / merge pass / resolution / advance, and the MERGING / alive heads the state holds when
+    the loop looks — and must reproduce, for every `_resolve_action_conflicts` call, the number of queued internal events, the
+    input heads (in order) and the advancing heads, consuming the whole recording."""
+    uid = {}
+    ids = lambda l: [_intern(uid, x) for x in l]  # noqa
+    script, calls = [], []
+    for e in skel:
+        if e[0] == "ev":
+            script.append(["ev", max(e[1], 0), ids(e[2])])
+        elif e[0] == "merge":
+            script.append(["merge", ids(e[1]), max(e[2], 0), ids(e[3])])
+        elif e[0] == "res":
+            script.append(["res", ids(e[1]), max(e[2], 0), ids(e[3])])
+            calls.append([e[5], ids(e[4]), ids(e[3])])
+        else:
+            script.append(["adv", max(e[1], 0), ids(e[2])])
+    neg = any((e[1] if e[0] in ("ev", "adv") else e[2]) < 0 for e in skel)
+    return [{"m": "C05.round", "script": script, "fuel": len(script) + 10}, {"round_calls": calls, "neg": neg}]
 
 
 def shared_action_region(call):
@@ -964,6 +1046,14 @@ def model_requests(case, obs):
 
 
 def compare_one(exp, m):
+    if "round_calls" in exp:
+        if exp["neg"]:
+            return "main loop: an internal event disappeared from the queue outside the pop (negative push count)"
+        if m["calls"] != exp["round_calls"] or m["bad"] or not m["ok"] or m["rest"]:
+            return (f"main loop of run_to_completion differs from the model (drain all internal events, merge, drain …, then resolve): "
+                    f"resolutions (queued events, input heads, advancing heads) impl {exp['round_calls']} model {m['calls']}"
+                    f"{' [model ran out of the recording]' if m['bad'] else ''}{' [recording not consumed]' if m['rest'] else ''}")
+        return None
     if "score_sign" in exp:
         # hypothesis `hr` of more_specific_wins: the float order (which the ranks are taken from) is the exact order of
         # priority * (9/10)^k; pairs whose exact values are closer than 1e-9 (relative) are outside the claim
@@ -1016,6 +1106,20 @@ def _vec_ge(a, b):
     return True
 
 
+def _vec_ge_observed(a, b):
+    """a >= b on OBSERVED float vectors (the code's own numbers): equal floats go on to the next entry; floats that differ
+    by less than the tolerance are a near tie of two exact values the floats may order either way (0.9**4 vs 0.81*0.81):
+    the order at that entry is not part of the claim, either head may win."""
+    n = max(len(a), len(b))
+    for x, y in zip(_pad(a, n), _pad(b, n)):
+        if x == y:
+            continue
+        if _close(x, y):
+            return True
+        return x > y
+    return True
+
+
 def oracle_call(call):
     """Function-level reading of the property on one observed call (no model involved)."""
     if "exc" in call:
@@ -1037,7 +1141,7 @@ def oracle_call(call):
             return f"loop {loop}: {len(g)} action events generated for {len(hs)} competing heads (expected exactly 1)"
         w = next(h for h in hs if h["uid"] == g[0])
         for h in hs:
-            if not _vec_ge(w["scores"], h["scores"]):
+            if not _vec_ge_observed(w["scores"], h["scores"]):
                 return f"loop {loop}: winner scores {w['scores']} are not maximal (competitor {h['scores']})"
             same = (h["ev"]["name"], h["ev"]["args"]) == (w["ev"]["name"], w["ev"]["args"])
             if same and h["ev"]["act"] and w["ev"]["act"] and h["ev"]["act"] != w["ev"]["act"] and not w.get("start"):
